@@ -118,6 +118,9 @@ struct Commit {
 	// Commit ID. This is not the same as log record id, as some records
 	// are originated within the DB. E.g. reindex.
 	id: u64,
+	// The ID this commit got when it was first queued. A deferred commit gets a new `id`
+	// and keeps this one: it tells which of two queued commits was made first.
+	first_id: u64,
 	// Size of user data pending insertion (keys + values) or
 	// removal (keys)
 	bytes: usize,
@@ -686,7 +689,7 @@ impl DbInner {
 			)?;
 		}
 
-		let commit = Commit { id: record_id, changeset: commit, bytes };
+		let commit = Commit { id: record_id, first_id: record_id, changeset: commit, bytes };
 
 		log::debug!(
 			target: "parity-db",
@@ -706,6 +709,7 @@ impl DbInner {
 		mut commit: CommitChangeSet,
 		old_bytes: usize,
 		old_id: u64,
+		first_id: u64,
 		new_id: Option<u64>,
 	) -> Result<()> {
 		let record_id = if let Some(id) = new_id {
@@ -753,7 +757,7 @@ impl DbInner {
 			old_bytes
 		};
 
-		let commit = Commit { id: record_id, changeset: commit, bytes };
+		let commit = Commit { id: record_id, first_id, changeset: commit, bytes };
 
 		log::debug!(
 			target: "parity-db",
@@ -832,10 +836,12 @@ impl DbInner {
 							drop(trees);
 
 							// Also check if there are any later commits in the queue that use this
-							// tree. Will need to defer if there are.
+							// tree. Will need to defer if there are. A commit that was made before
+							// this one and sits behind it only because it was deferred itself is
+							// not waited for: two commits must never wait for each other.
 							let queue = self.commit_queue.lock();
-							for commit in &queue.commits {
-								for (_col, change_set) in &commit.changeset.indexed {
+							for later in queue.commits.iter().filter(|c| c.first_id > commit.first_id) {
+								for (_col, change_set) in &later.changeset.indexed {
 									for tree in &change_set.used_trees {
 										if tree == hash {
 											defer = true;
@@ -856,7 +862,14 @@ impl DbInner {
 						// Nothing else in the queue so can reuse same id
 						Some(commit.id)
 					};
-					self.defer_commit(queue, commit.changeset, commit.bytes, commit.id, new_id)?;
+					self.defer_commit(
+						queue,
+						commit.changeset,
+						commit.bytes,
+						commit.id,
+						commit.first_id,
+						new_id,
+					)?;
 
 					return Ok(true)
 				} else {
